@@ -47,6 +47,9 @@ class FakeResponse:
 
 def run_case(args):
     k, group, server, version, timing, cmd = args
+    cmd_label, verbose = cmd, cmd.endswith("_v")      # '<cmd>_v': the same command with -v (verbose output is the command's own)
+    if verbose:
+        cmd = cmd[:-2]
     import ascmhl.cli.ascmhl as G1
     import ascmhl.cli.ascmhl_debug as G2
 
@@ -73,6 +76,8 @@ def run_case(args):
                 pass
         else:
             argv, bare = ["verify", root], C.verify
+        if verbose:
+            argv = argv + ["-v"]
         # reference: the bare command on an identical copy
         ref_root = os.path.join(wd, "ref", "vol")
         shutil.copytree(root, ref_root)
@@ -108,18 +113,18 @@ def run_case(args):
             if "res" not in box:
                 release.set()
                 return {"tid": "upd-%d" % k, "i": 0, "group": group, "server": server, "version": VERSION_CLASS.get(version, version), "version_text": str(VERSIONS.get(version)),
-                        "timing": timing if server != "hang" else "never", "cmd": cmd, "exit": -9, "ref_exit": ref.exit_code, "stdout_same": False, "notice": False,
-                        "notice_last": True, "notice_count": 0, "elapsed_ms": int(elapsed * 1000), "ref_ms": 0, "op": {"op": cmd}, "exc": "command did not return within 8 s"}
+                        "timing": timing if server != "hang" else "never", "cmd": cmd_label, "exit": -9, "ref_exit": ref.exit_code, "stdout_same": False, "notice": False,
+                        "notice_last": True, "notice_count": 0, "elapsed_ms": int(elapsed * 1000), "ref_ms": 0, "op": {"op": cmd_label}, "exc": "command did not return within 8 s"}
             res = box["res"]
         finally:
             requests.get = orig_get
         out = res.stdout
         has_notice = NOTICE in out
         stripped = out.replace(NOTICE + "\n", "") if has_notice else out
-        return {"tid": "upd-%d" % k, "i": 0, "group": group, "server": server, "version": VERSION_CLASS.get(version, version), "version_text": str(VERSIONS.get(version)), "timing": timing if server != "hang" else "never", "cmd": cmd,
+        return {"tid": "upd-%d" % k, "i": 0, "group": group, "server": server, "version": VERSION_CLASS.get(version, version), "version_text": str(VERSIONS.get(version)), "timing": timing if server != "hang" else "never", "cmd": cmd_label,
                 "exit": res.exit_code, "ref_exit": ref.exit_code, "stdout_same": stripped == ref_out, "notice": has_notice,
                 "notice_last": (not has_notice) or out.endswith(NOTICE + "\n"), "notice_count": out.count(NOTICE),
-                "elapsed_ms": int(elapsed * 1000), "ref_ms": 0, "op": {"op": cmd},
+                "elapsed_ms": int(elapsed * 1000), "ref_ms": 0, "op": {"op": cmd_label},
                 "exc": "" if res.exception is None or isinstance(res.exception, SystemExit) else "%s: %s" % (type(res.exception).__name__, res.exception)}
     finally:
         release.set()
